@@ -114,7 +114,11 @@ func fragCase(c *Ctx, src []byte) {
 		c.Count("frag=notclean")
 		return
 	}
-	if len(prog.Statements) != 1 || !inFragment(prog.Statements[0]) {
+	infrag := len(prog.Statements) > 0
+	for _, st := range prog.Statements {
+		infrag = infrag && inFragment(st)
+	}
+	if !infrag {
 		c.Case(line, "N=notfrag C=notfrag")
 		c.Count("frag=notfrag")
 		return
@@ -129,7 +133,15 @@ func fragCase(c *Ctx, src []byte) {
 		obs[i] = lexedTokens(txt)
 		// direct oracle: the round trip itself
 		if r, _ := RoundTrip(src, compact); r != "same" {
-			c.Fail("fragment-roundtrip:"+r, "TL "+Hx(src), fmt.Sprintf("compact=%v src=%q printed=%q", compact, src, txt))
+			mode := "normal"
+			if compact {
+				mode = "compact"
+			}
+			sig := RTSig(prog, mode, r) // a recorded finding (a following statement that starts with - + ^ ...) keeps its own sig
+			if !strings.HasPrefix(sig, "roundtrip:") {
+				sig = "fragment-roundtrip:" + r
+			}
+			c.Fail(sig, "TL "+Hx(src), fmt.Sprintf("compact=%v src=%q printed=%q", compact, src, txt))
 		}
 	}
 	c.Case(line, "N="+obs[0]+" C="+obs[1])
@@ -278,6 +290,18 @@ func run(c *Ctx) {
 	}
 	for i := 0; i < nf; i++ {
 		fragCase(c, []byte(fragExpr(c.R, 1+c.R.Intn(5))))
+	}
+	// sequences of fragment statements (theorem fragment_statements_roundtrip): separated by newline or `;`
+	for _, src := range []string{"a\nb", "a;b;c", "a+b\n(c+d)*e", "a\n!b", "x=1\ny=x*(2+x)\n-y", "a\n-b", "a;++b", "(a)\n(b)", "a\n\"s\"+b\ntrue"} {
+		fragCase(c, []byte(src))
+	}
+	for i := 0; i < nf/3; i++ {
+		n := 2 + c.R.Intn(3)
+		var parts []string
+		for j := 0; j < n; j++ {
+			parts = append(parts, fragExpr(c.R, 1+c.R.Intn(3)))
+		}
+		fragCase(c, []byte(strings.Join(parts, []string{"\n", ";", "\n\n", " ;\n"}[c.R.Intn(4)])))
 	}
 	// strings over the byte universe and number forms
 	for i := 0; i < 400; i++ {
